@@ -97,71 +97,82 @@ def check(case):
                         info['empty_pos'].add('highest' if k == n - 1 else
                                               ('lowest' if k == 0 else 'middle'))
                 what = 'get_amplitudes_true(%r, use=%r)' % (f, use)
-                out = must_return(what, m.get_amplitudes_true, f, use=use)
-                require(isinstance(out, tuple) and len(out) == 3, what + ': not a triple',
-                        key='amp-true-type')
-                sa, wf, mean = out
                 esa, emean, au = amplitudes_true_oracle(W, wmi, ids, A, f)
-                same_array(what + ': spike amplitudes', sa, esa, key='amp-true-spikes', dtype=False,
-                           tol=(1e-5, 0))
-                same_array(what + ': per-%s mean amplitudes' % use[:-1], mean, emean,
-                           key='amp-true-means', dtype=False, tol=(1e-5, 0))
-                wf = np.asarray(wf)
-                require(wf.shape == W.shape, what + ': rescaled waveforms shape',
-                        key='amp-true-wf-shape', observed=wf.shape, expected=W.shape)
-                for k in range(n):
-                    if k in present:
-                        peak = np.max(O.ptp(wf[k].astype(np.float64), axis=0))
-                        require(abs(peak - emean[k]) <= 1e-4 * abs(emean[k]) + 1e-30,
-                                what + ': rescaled waveform %d has not the mean amplitude as '
-                                'peak amplitude' % k, key='amp-true-rescaled', observed=peak,
-                                expected=emean[k])
-                        # and it is the unwhitened waveform up to that scale
-                        U = np.asarray(W[k], dtype=np.float64) @ wmi
-                        e = U * (emean[k] / au[k])
-                        require(np.allclose(wf[k], e, rtol=1e-4,
-                                            atol=1e-5 * float(np.max(np.abs(e)))),
-                                what + ': rescaled waveform %d is not the unwhitened waveform '
-                                'times mean/au' % k, key='amp-true-wf', observed=wf[k], expected=e)
+
+                def cmp_true(out, what, W=W, n=n, present=present, esa=esa, emean=emean, au=au):
+                    require(isinstance(out, tuple) and len(out) == 3, what + ': not a triple',
+                            key='amp-true-type')
+                    sa, wf, mean = out
+                    same_array(what + ': spike amplitudes', sa, esa, key='amp-true-spikes',
+                               dtype=False, tol=(1e-5, 0))
+                    same_array(what + ': per-%s mean amplitudes' % use[:-1], mean, emean,
+                               key='amp-true-means', dtype=False, tol=(1e-5, 0))
+                    wf = np.asarray(wf)
+                    require(wf.shape == W.shape, what + ': rescaled waveforms shape',
+                            key='amp-true-wf-shape', observed=wf.shape, expected=W.shape)
+                    for k in range(n):
+                        if k in present:
+                            peak = np.max(O.ptp(wf[k].astype(np.float64), axis=0))
+                            require(abs(peak - emean[k]) <= 1e-4 * abs(emean[k]) + 1e-30,
+                                    what + ': rescaled waveform %d has not the mean amplitude as '
+                                    'peak amplitude' % k, key='amp-true-rescaled', observed=peak,
+                                    expected=emean[k])
+                            # and it is the unwhitened waveform up to that scale
+                            U = np.asarray(W[k], dtype=np.float64) @ wmi
+                            e = U * (emean[k] / au[k])
+                            require(np.allclose(wf[k], e, rtol=1e-4,
+                                                atol=1e-5 * float(np.max(np.abs(e)))),
+                                    what + ': rescaled waveform %d is not the unwhitened waveform '
+                                    'times mean/au' % k, key='amp-true-wf', observed=wf[k],
+                                    expected=e)
+                core.twice(what, lambda: m.get_amplitudes_true(f, use=use), cmp_true)
                 # simple means of the stored amplitudes per present id
                 prop = 'templates_amplitudes' if use == 'templates' else 'clusters_amplitudes'
-                got = must_return(prop, lambda: getattr(m, prop))
                 exp = np.array([np.mean([a for i, a in zip(ids, A) if int(i) == k])
                                 for k in sorted(present)])
-                same_array(prop, got, exp, key='mean-stored-amplitudes', dtype=False, tol=(1e-9, 0))
+                core.twice(prop, lambda: getattr(m, prop), lambda got, what, exp=exp: same_array(
+                    what, got, exp, key='mean-stored-amplitudes', dtype=False, tol=(1e-9, 0)))
                 # peak channels
                 prop = 'templates_channels' if use == 'templates' else 'clusters_channels'
-                chs = np.asarray(must_return(prop, lambda: getattr(m, prop)))
-                require(chs.shape == (n,), prop + ' length', key='peak-channels-len',
-                        observed=chs.shape, expected=n)
-                for k in range(n):
-                    require(_peak_ok(W, k, chs[k]), '%s[%d] is not a channel of maximal '
-                            'peak-to-peak amplitude' % (prop, k), key='peak-channels',
-                            observed=int(chs[k]))
+
+                def cmp_peaks(chs, what, W=W, n=n):
+                    chs = np.asarray(chs)
+                    require(chs.shape == (n,), what + ' length', key='peak-channels-len',
+                            observed=chs.shape, expected=n)
+                    for k in range(n):
+                        require(_peak_ok(W, k, chs[k]), '%s[%d] is not a channel of maximal '
+                                'peak-to-peak amplitude' % (what, k), key='peak-channels',
+                                observed=int(chs[k]))
+                core.twice(prop, lambda: getattr(m, prop), cmp_peaks)
                 # durations
                 prop = 'templates_waveforms_durations' if use == 'templates' else \
                     'clusters_waveforms_durations'
-                du = np.asarray(must_return(prop, lambda: getattr(m, prop)))
-                require(du.shape == (n,), prop + ' length', key='durations-len', observed=du.shape)
-                for k in range(n):
-                    Wk = np.asarray(W[k], dtype=np.float64)
-                    a = O.ptp(Wk, axis=0)
-                    cands = [c for c in range(Wk.shape[1]) if a[c] >= a.max() - 1e-9 * max(
-                        a.max(), 1e-30)]
-                    exps = [(int(np.argmax(Wk[:, c])) - int(np.argmin(Wk[:, c]))) / rate * 1e3
-                            for c in cands]
-                    require(any(abs(du[k] - e) <= 1e-9 * max(1.0, abs(e)) for e in exps),
-                            '%s[%d] is not (argmax-argmin on the peak channel)/rate*1e3' % (prop, k),
-                            key='durations', observed=du[k], expected=exps)
+
+                def cmp_durations(du, what, W=W, n=n):
+                    du = np.asarray(du)
+                    require(du.shape == (n,), what + ' length', key='durations-len',
+                            observed=du.shape)
+                    for k in range(n):
+                        Wk = np.asarray(W[k], dtype=np.float64)
+                        a = O.ptp(Wk, axis=0)
+                        cands = [c for c in range(Wk.shape[1]) if a[c] >= a.max() - 1e-9 * max(
+                            a.max(), 1e-30)]
+                        exps = [(int(np.argmax(Wk[:, c])) - int(np.argmin(Wk[:, c]))) / rate * 1e3
+                                for c in cands]
+                        require(any(abs(du[k] - e) <= 1e-9 * max(1.0, abs(e)) for e in exps),
+                                '%s[%d] is not (argmax-argmin on the peak channel)/rate*1e3' % (
+                                    what, k), key='durations', observed=du[k], expected=exps)
+                core.twice(prop, lambda: getattr(m, prop), cmp_durations)
             # template probes
-            tp = np.asarray(must_return('templates_probes', lambda: m.templates_probes))
             labels = T.probes if T.probes is not None else np.zeros(spec['nc'], dtype=np.int32)
-            tch = np.asarray(m.templates_channels)
-            same_array('templates_probes (stored probe label of the peak channel)', tp,
-                       labels[tch.astype(np.int64)], key='templates-probes', dtype=False)
+            tch = np.array(m.templates_channels, copy=True)
+            core.twice('templates_probes', lambda: m.templates_probes,
+                       lambda tp, what: same_array(
+                           what + ' (stored probe label of the peak channel)', tp,
+                           labels[tch.astype(np.int64)], key='templates-probes', dtype=False))
             # depths
-            dp = must_return('get_depths', m.get_depths)
             if T.pcf is None:
+                dp = must_return('get_depths', m.get_depths)
                 require(dp is None, 'get_depths without features', key='depths-none', observed=dp)
             else:
                 exp = np.zeros(spec['ns'])
@@ -175,7 +186,11 @@ def check(case):
                     exp[s] = num / den if den > 0 else np.nan
                     if den == 0:
                         info['zero_den'] = True
-                same_array('get_depths', dp, exp, key='depths', dtype=False, tol=(1e-5, 1e-9))
+                with core.without('fp', 'warn'):
+                    # get_depths divides by the summed positive feature part, which may be 0
+                    # (-> NaN under the default floating-point error state)
+                    core.twice('get_depths', m.get_depths, lambda dp, what: same_array(
+                        what, dp, exp, key='depths', dtype=False, tol=(1e-5, 1e-9)))
         finally:
             m.close()
     info['empty_pos'] = sorted(info['empty_pos'])
